@@ -29,6 +29,9 @@ Section SemProofs.
     destruct (String.eqb m n); cbn [map fst]; [reflexivity | rewrite IH; reflexivity].
   Qed.
 
+  Lemma drop_feat_cv (st : sem) : sm_cv (drop_feat st) = sm_cv st /\ sm_bias (drop_feat st) = sm_bias st /\ sm_objs (drop_feat st) = sm_objs st.
+  Proof. unfold drop_feat. destruct (sm_mod st); repeat split; reflexivity. Qed.
+
   (* a body that the structural model does not know leaves the object sets alone *)
   Lemma body_unknown e words objs objs' : body parse_conf read_file e words objs = (objs', BUnknown) -> objs' = objs.
   Proof.
@@ -172,7 +175,7 @@ Section SemProofs.
     destruct (cs_collect c) eqn:E1; cbn [negb].
     - destruct Hf as [Hf|Hf]; [discriminate|]. rewrite Hf. cbn [snd fst]. split; [reflexivity|].
       intros c' Hc'. rewrite Hc in Hc'. injection Hc' as <-. rewrite E1, Hf. split; reflexivity.
-    - cbn [snd fst]. split; [reflexivity|]. intros c' Hc'. unfold set_flags in Hc'. rewrite Hc in Hc'. cbn [sm_cv] in Hc'.
+    - cbn [snd fst]. split; [reflexivity|]. intros c' Hc'. rewrite (proj1 (drop_feat_cv _)) in Hc'. unfold set_flags in Hc'. rewrite Hc in Hc'. cbn [sm_cv] in Hc'.
       assert (A : forall l, alookup x l = Some c -> alookup x (aset x (mk_cvsem (cs_data c) true (Some false) (cs_cvcs c) (cs_pending c)) l)
                                                   = Some (mk_cvsem (cs_data c) true (Some false) (cs_cvcs c) (cs_pending c))).
       { induction l as [|[m b] r IH]; cbn [alookup aset]; [discriminate|].
@@ -193,6 +196,16 @@ Section SemProofs.
     rewrite L. cbn [cs_collect cs_valid cs_data]. rewrite Hcol. cbn [negb]. unfold step_valid. rewrite Hcol, Hok, Hact.
     destruct (cs_valid c) as [[|]|]; reflexivity.
   Qed.
+
+  (* `get <feature>` returns the observed state of the feature and changes nothing *)
+  Lemma feature_get_reads_state (st : sem) e words :
+    e_name e = "colvar_get" \/ e_name e = "bias_get" -> fst (body_sem st e words) = st /\
+    snd (body_sem st e words) =
+      (if String.eqb (e_name e) "colvar_get"
+       then feature_query st ("c:" ++ nth 2 words "") (nth 4 words "")
+              (match alookup (nth 2 words "") (sm_cv st) with Some cs => Some (cs_collect cs) | None => None end)
+       else feature_query st ("b:" ++ nth 2 words "") (nth 4 words "") None).
+  Proof. intros [H|H]; unfold body_sem; rewrite H; cbn -[feature_query alookup]; split; reflexivity. Qed.
 
   (* ---- deferred component flags (cvcflags): stored, last accepted command wins, applied by the next calc() ---- *)
   Lemma alookup_aset_same {A} x (a : A) l : alookup x l <> None -> alookup x (aset x a l) = Some a.
@@ -215,6 +228,37 @@ Section SemProofs.
     apply alookup_aset_same. rewrite Hc. discriminate.
   Qed.
 
+  (* ---- an error answer of a modelled body leaves the state as it was ---- *)
+  Lemma aset_same {A} x (a : A) l : alookup x l = Some a -> aset x a l = l.
+  Proof.
+    induction l as [|[m b] r IH]; cbn [alookup aset]; [reflexivity|].
+    destruct (String.eqb m x) eqn:Em.
+    - intros H; injection H as ->. reflexivity.
+    - intros H. rewrite (IH H). reflexivity.
+  Qed.
+
+  Definition error_is_clean (fn : string) : bool :=
+    existsb (String.eqb fn) ["cv_list"; "colvar_get"; "bias_get"; "colvar_cvcflags"; "bias_bin"; "bias_bincount"; "bias_binnum";
+                             "bias_local_sample_count"; "bias_share"].
+
+  Lemma error_answer_changes_nothing (st : sem) e words :
+    error_is_clean (e_name e) = true -> snd (body_sem st e words) = QErr -> fst (body_sem st e words) = st.
+  Proof.
+    unfold error_is_clean. intros H. apply existsb_exists in H. destruct H as [x [Hin Hx]]. apply String.eqb_eq in Hx. subst x.
+    destruct Hin as [Hn|[Hn|[Hn|[Hn|Hin]]]].
+    - unfold body_sem. rewrite <- Hn. cbn -[alookup]. destruct (nth_error words 2); intros _; reflexivity.
+    - unfold body_sem. rewrite <- Hn. cbn -[alookup feature_query]. intros _. reflexivity.
+    - unfold body_sem. rewrite <- Hn. cbn -[alookup feature_query]. intros _. reflexivity.
+    - unfold body_sem. rewrite <- Hn. cbn -[alookup set_cvcs set_pending parse_flags].
+      destruct (alookup (nth 2 words "") (sm_cv st)) as [cs|] eqn:Ec; [|intros _; reflexivity].
+      destruct (cs_cvcs cs) as [cur|] eqn:Ecur; [|cbn [snd]; discriminate].
+      unfold set_pending. destruct (List.length (parse_flags (nth 4 words "")) =? List.length cur)%nat; cbn [fst snd]; [discriminate|].
+      intros _. unfold set_cvcs. rewrite Ec. rewrite <- Ecur.
+      replace (mk_cvsem (cs_data cs) (cs_collect cs) (cs_valid cs) (cs_cvcs cs) (cs_pending cs)) with cs by (destruct cs; reflexivity).
+      rewrite (aset_same _ _ _ Ec). destruct st; reflexivity.
+    - unfold body_sem. repeat (destruct Hin as [Hn|Hin]; [rewrite <- Hn; cbn -[alookup]; intros _; reflexivity|]). destruct Hin.
+  Qed.
+
   (* the data stay attached to the objects that exist, over every history *)
   Lemma resync_wf (st : sem) objs : sem_wf (resync st objs).
   Proof.
@@ -229,17 +273,22 @@ Section SemProofs.
       unfold sem_wf. cbn [sm_cv sm_bias sm_objs]. rewrite map_fst_aset. repeat split; assumption. }
     assert (I : sem_wf (invalidate st) /\ sm_objs (invalidate st) = sm_objs st).
     { unfold sem_wf, invalidate. cbn [sm_cv sm_bias sm_objs]. rewrite !map_map. cbn [fst]. repeat split; assumption. }
+    assert (D : forall s0 : sem, sem_wf s0 /\ sm_objs s0 = sm_objs st -> sem_wf (drop_feat s0) /\ sm_objs (drop_feat s0) = sm_objs st).
+    { intros s0 [[W1 W2] Ho]. destruct (drop_feat_cv s0) as (E1 & E2 & E3). unfold sem_wf. rewrite E1, E2, E3. repeat split; assumption. }
     unfold body_sem.
     destruct (pure_query st (e_name e) (nth 2 words "") (nth_error words 2)); [split; [split; assumption | reflexivity]|].
     destruct (inert (e_name e)); [split; [split; assumption | reflexivity]|].
+    destruct (grid_only (e_name e)); [split; [split; assumption | reflexivity]|].
+    destruct (String.eqb (e_name e) "colvar_get"); [split; [split; assumption | reflexivity]|].
+    destruct (String.eqb (e_name e) "bias_get"); [split; [split; assumption | reflexivity]|].
     destruct (String.eqb (e_name e) "colvar_getgradients").
     { destruct (alookup (nth 2 words "") (sm_cv st)) as [cs|]; [|split; [split; assumption | reflexivity]].
-      destruct (negb (cs_collect cs)); [apply F|]. destruct (cs_valid cs) as [[|]|]; split; try split; try assumption; reflexivity. }
+      destruct (negb (cs_collect cs)); [apply D; apply F|]. destruct (cs_valid cs) as [[|]|]; split; try split; try assumption; reflexivity. }
     destruct (String.eqb (e_name e) "colvar_set" && String.eqb (nth 4 words "") "collect_gradient").
     { destruct (alookup (nth 2 words "") (sm_cv st)) as [cs|]; [|split; [split; assumption | reflexivity]].
       destruct (truthy (nth 5 words "")) as [[|]|]; cbn [fst].
-      - destruct (cs_collect cs); [split; [split; assumption | reflexivity] | apply F].
-      - apply F.
+      - destruct (cs_collect cs); [split; [split; assumption | reflexivity] | apply D; apply F].
+      - apply D; apply F.
       - split; [split; assumption | reflexivity]. }
     assert (G : forall (s0 : sem) n a p, sem_wf s0 -> sm_objs s0 = sm_objs st -> sem_wf (set_cvcs s0 n a p) /\ sm_objs (set_cvcs s0 n a p) = sm_objs st).
     { intros s0 n a p [W1 W2] Ho. unfold set_cvcs. destruct (alookup n (sm_cv s0)); [|split; [split; assumption | exact Ho]].
